@@ -328,6 +328,28 @@ def task_float_magnitude():
             bad = "%s: %s" % (type(e).__name__, str(e)[:100])
         out.append(ob("%s:float-magnitude[%d]" % (fn, scale), fn, FAILED if bad else PROVED, "B", "concrete", 0.0,
                       bad or "knot_insert([1.0]) then knot_remove([1.0]) restores the dyadic float curve", dict(kind="c05.floatmag", scale=scale) if bad else None))
+    # knot vectors that MIX Python ints with Fractions (users write [0, 0, 0, 1, Fraction(3, 2), 2, 2, 2]): an exactly removable knot, given with exactly refined control
+    # points, is removed exactly - also with tolerance 0 - and the curve that remains is exact
+    for label, U0, x in (("p2", [0, 0, 0, 1, 2, 2, 2], F(3, 2)), ("p3", [0, 0, 0, 0, 1, 3, 3, 3, 3], F(5, 2)), ("p1", [0, 0, 1, 2, 4, 4], F(1, 2))):
+        for tol in (0, F(1, 10 ** 9), None):
+            bad = None
+            try:
+                p_ = U0.count(U0[0]) - 1
+                n0 = len(U0) - p_ - 1
+                P0 = [F((-1) ** i * (i + 2), 3) for i in range(n0)]
+                U1 = sorted(U0 + [x], key=F)
+                T = spec.refine_matrix([F(u) for u in U0], p_, [F(u) for u in U1], p_)
+                P1 = [sum(T[i][j] * P0[j] for j in range(n0)) for i in range(len(T))]
+                c = curves.Curve(list(U1), list(P1))
+                c.knot_remove([x], tol)
+                if [F(u) for u in c.knotvector] != [F(u) for u in U0] or list(c.ctrlpoints) != P0:
+                    bad = "after the removal: knots %s, control points %s (expected exactly %s)" % (list(c.knotvector), list(c.ctrlpoints), [str(q) for q in P0])
+            except ValueError as e:
+                bad = "an exactly removable knot is refused: %s" % str(e)[:80]
+            except Exception as e:
+                bad = "%s: %s" % (type(e).__name__, str(e)[:100])
+            out.append(ob("%s:mixed-int-Fraction-knots[%s,tolerance=%s]" % (fn, label, tol), fn, FAILED if bad else PROVED, "B", "concrete", 0.0,
+                          bad or "removed exactly", dict(kind="c05.floatmag", scale="%s,tolerance=%s" % (label, tol)) if bad else None))
     return out + [{"_stats": dict(cases=len(out))}]
 
 
@@ -358,7 +380,7 @@ def replay(o):
         from . import kinds
         return kinds.replay(o)
     if w["kind"] == "c05.floatmag":
-        r = [x for x in task_float_magnitude() if "id" in x and x["id"].endswith("[%d]" % w["scale"])][0]
+        r = [x for x in task_float_magnitude() if "id" in x and x["id"].endswith("[%s]" % w["scale"])][0]
         return r["status"] == "failed", "insert then remove restores the curve", r["detail"]
     if w["kind"] == "c05.order":
         r = task_order(w["case"])[0]
